@@ -191,6 +191,43 @@ func c11(r *core.Report, p *core.Prog, thorough bool) {
 	r.Check(rejects(".Value", token.LSS, ".MinStake"), "C11.lock-guards", "validateLockRequest:min", p.Pos(vlr.Pos()), "stake below the minimum rejected")
 	r.Check(rejects("AddCoin()#0", token.GTR, ".MaxStake"), "C11.lock-guards", "validateLockRequest:max", p.Pos(vlr.Pos()), "resulting pool stake above the maximum rejected")
 	r.Check(rejects("len()", token.GEQ, ".MaxNumDelegates"), "C11.lock-guards", "validateLockRequest:delegates", p.Pos(vlr.Pos()), "delegate limit enforced for a new delegate")
+	// the limit is the one configured for THIS provider's stake pool, not the contract-wide cap
+	{
+		var spPrm *ssa.Parameter
+		for _, prm := range vlr.Params {
+			if strings.HasSuffix(prm.Type().String(), "AbstractStakePool") || strings.HasSuffix(prm.Type().String(), "StakePool") {
+				spPrm = prm
+			}
+		}
+		okOwn, n := spPrm != nil, 0
+		for _, ret := range core.Returns(vlr) {
+			if core.ClassifyReturn(ret) != core.ExitFailure {
+				continue
+			}
+			for _, f := range CmpFacts(ret.Block()) {
+				for _, side := range [][2]ssa.Value{{f.X, f.Y}, {f.Y, f.X}} {
+					if !strings.HasSuffix(describe(side[1]), ".MaxNumDelegates") {
+						continue
+					}
+					if c, ok := side[0].(*ssa.Call); !ok || core.CalleeName(c.Common()) != "builtin.len" {
+						continue
+					}
+					n++
+					_, leaves := FlowLoads(side[1])
+					fromSP := false
+					for _, l := range leaves {
+						if spPrm != nil && l == ssa.Value(spPrm) {
+							fromSP = true
+						}
+					}
+					if !fromSP {
+						okOwn = false
+					}
+				}
+			}
+		}
+		r.Check(okOwn && n > 0, "C11.lock-guards", "validateLockRequest:delegates-own-limit", p.Pos(vlr.Pos()), "the delegate count is compared with the limit configured in the stake pool being locked (its own settings), not with a contract-wide setting")
+	}
 	// ---- Empty (both implementations)
 	for _, en := range []string{"(*" + pkgSP + ".StakePool).Empty", "(*0chain.net/smartcontract/storagesc.stakePool).Empty", "(*0chain.net/smartcontract/zcnsc.StakePool).empty"} {
 		ef := p.Func(en)
